@@ -2,7 +2,7 @@
 C10 — the displacement tensor is a sound and, within range, exact minimum-image table.
 Model: Matid.Geom (MatidModel/Geom.lean) — exact arithmetic on the rational inputs.
 -/
-import MatidProofs.GeomStruct
+import MatidProofs.GeomAssemble
 
 namespace Matid.Props.C10
 open Matid.Geom
@@ -77,6 +77,51 @@ theorem pairEntry_none_iff (cl : CellList) (pi : V3) (j : Nat) :
     have : c0 ∈ (cl.query pi).filter (fun nb => nb.index == j) := by rw [hc]; exact List.mem_cons_self
     obtain ⟨h1, h2⟩ := List.mem_filter.mp this
     exact hall c0 h1 (by simpa using h2)
+
+
+/-! ### the assembled statement (exact arithmetic): entry = true minimum image -/
+
+/-- **finite cutoff.**  For every non-singular cell, every pbc combination, every list of atoms, every cutoff c > 0,
+every atom j and every query atom whose fractional coordinates along the periodic axes lie in [0,1):
+a finite entry is the squared length of a genuine image of j at an integer offset that vanishes on the non-periodic
+axes (for each reported factor), it is ≤ c², and it is ≤ the squared distance to EVERY such image — i.e. it is the
+true minimum-image distance; and the entry is +∞ exactly when every image is beyond the cutoff. -/
+theorem tensor_entry_exact_finite (positions : List V3) (cell : Cell) (pbc : Pbc) (c : Rat) (hc : 0 < c)
+    (hdet : cell.det ≠ 0) (cl : CellList) (hcl : tensorCellList positions cell pbc (some c) = .ok cl)
+    (j : Nat) (s t : V3) (hj : positions[j]? = some (toCartesian cell t))
+    (hs : insideCell pbc s) (ht : insideCell pbc t) :
+    (∀ e, pairEntry cl (toCartesian cell s) j = some e →
+        e.factors ≠ [] ∧
+        (∀ f ∈ e.factors, admissible pbc f ∧ e.dist2 = imageDist2 cell (toCartesian cell s) (toCartesian cell t) f) ∧
+        e.dist2 ≤ c * c ∧
+        ∀ n, admissible pbc n → e.dist2 ≤ imageDist2 cell (toCartesian cell s) (toCartesian cell t) n) ∧
+    (pairEntry cl (toCartesian cell s) j = none ↔
+        ∀ n, admissible pbc n → c * c < imageDist2 cell (toCartesian cell s) (toCartesian cell t) n) :=
+  Matid.Geom.tensor_entry_exact_finite positions cell pbc c hc hdet cl hcl j s t hj hs ht
+
+/-- **unbounded cutoff** (extension = longest periodic cell vector L): no entry is +∞, every entry is a genuine
+image, and whenever some image of j lies within L the entry is the true minimum over all images. -/
+theorem tensor_entry_exact_infinite (positions : List V3) (cell : Cell) (pbc : Pbc)
+    (hdet : cell.det ≠ 0) (cl : CellList) (hcl : tensorCellList positions cell pbc none = .ok cl)
+    (j : Nat) (s t : V3) (hj : positions[j]? = some (toCartesian cell t))
+    (hs : insideCell pbc s) (ht : insideCell pbc t) :
+    ∃ e, pairEntry cl (toCartesian cell s) j = some e ∧
+      e.factors ≠ [] ∧
+      (∀ f ∈ e.factors, admissible pbc f ∧ e.dist2 = imageDist2 cell (toCartesian cell s) (toCartesian cell t) f) ∧
+      ((∃ n, admissible pbc n ∧ imageDist2 cell (toCartesian cell s) (toCartesian cell t) n ≤ maxPeriodicLen2 cell pbc) →
+        ∀ m, admissible pbc m → e.dist2 ≤ imageDist2 cell (toCartesian cell s) (toCartesian cell t) m) :=
+  Matid.Geom.tensor_entry_exact_infinite positions cell pbc hdet cl hcl j s t hj hs ht
+
+/-- the hypotheses are satisfiable and the conclusion is not trivial: a sheared cell, pbc (T,T,F), two atoms whose
+nearest image is across the cell boundary (offset (−1,0,0)) -/
+def exCell : Cell := { a := (2, 0, 0), b := (1, 3, 0), c := (0, 0, 5) }
+def exPbc : Pbc := { x := true, y := true, z := false }
+def exPos : List V3 := [toCartesian exCell (1/8, 1/4, 1/2), toCartesian exCell (7/8, 1/4, 1/2)]
+example : exCell.det ≠ 0 ∧ insideCell exPbc (1/8, 1/4, 1/2) ∧ insideCell exPbc (7/8, 1/4, 1/2) := by
+  refine ⟨by decide +kernel, ?_, ?_⟩ <;> (unfold insideCell exPbc; norm_num)
+example : (match tensorCellList exPos exCell exPbc (some 1) with
+    | .ok cl => (pairEntry cl (toCartesian exCell (1/8, 1/4, 1/2)) 1).map (fun e => (e.dist2, e.factors))
+    | .error _ => none) = some (1/4, [(-1, 0, 0)]) := by decide +kernel
 
 /-! non-vacuity -/
 example : ceilSqrt (9 / 4) = 2 ∧ ceilSqrt 4 = 2 ∧ ceilSqrt 0 = 0 := by decide +kernel
